@@ -4,6 +4,7 @@ import (
 	"fmt"
 	"go/token"
 	"regexp"
+	"strings"
 
 	"golang.org/x/tools/go/ssa"
 
@@ -90,7 +91,7 @@ func c11Sanitisers(c *eng.Ctx) {
 			site := "sanitised{" + sf.field + "}"
 			var stores []ssa.Instruction
 			for _, v := range fieldStores(copyAlloc, sf.field) {
-				if ok, _, _ := eng.OriginsMatch(v.Val, sf.origin); ok {
+				if c11SanOrigin(v.Val, sf.origin, sf.origin == hmac) {
 					stores = append(stores, v)
 				} else {
 					c.Violation(f, site, v.Pos(), fmt.Sprintf("the copy's field %s is overwritten with a value that is not the sanitiser's output (allowed origin %s): %s", sf.field, sf.origin, eng.Expr(v.Val)), nil)
@@ -118,7 +119,11 @@ func c11Sanitisers(c *eng.Ctx) {
 				// and the structure hashed is the one stored, with the HMAC callback
 				for _, hm := range eng.Calls(f, sf.after) {
 					c.Clause("R5", "C11.5")
-					c.Prov(f, "callback given to hashMap", hm, hm.Common().Args[0], `^func:closure:salt\.\(\*Salt\)\.GetIdentifiedHMAC\$bound$`)
+					if c11IsHMACFunc(hm.Common().Args[0]) {
+						c.OK(f, "prov{callback given to hashMap}", hm.Pos(), "the salt's GetIdentifiedHMAC (method value, or a closure that only forwards to it)")
+					} else {
+						c.Violation(f, "prov{callback given to hashMap}", hm.Pos(), "the callback handed to hashMap is "+eng.ExprDeep(hm.Common().Args[0])+", not the salt's GetIdentifiedHMAC", nil)
+					}
 					c.Prov(f, "structure given to hashMap", hm, hm.Common().Args[1], sf.origin)
 					// ... and it is the very value stored into the copy, judged at the call: a load of the
 					// copy's field before the overwrite still sees the input's live map
@@ -387,4 +392,66 @@ func (r *reWrap) FindStringSubmatch(s string) []string {
 		}
 	}
 	return nil
+}
+
+// ---------- "the salted-HMAC function", however it is written
+
+const c11HMACFn = "salt.(*Salt).GetIdentifiedHMAC"
+
+// c11IsHMACFunc: v denotes salt.(*Salt).GetIdentifiedHMAC — the bound method value, or a
+// closure with one parameter every return of which is GetIdentifiedHMAC applied to that
+// parameter (read through a local alias / captured variable if need be).
+func c11IsHMACFunc(v ssa.Value) bool {
+	fn, mc := nfFuncValue(c11Strip(v))
+	if fn == nil {
+		return false
+	}
+	if mc != nil && nfIsBoundWrapper(fn) {
+		return strings.TrimSuffix(eng.FuncName(fn), "$bound") == c11HMACFn
+	}
+	if fn.Parent() == nil || len(fn.Params) != 1 || len(fn.Blocks) == 0 {
+		return false
+	}
+	rets := eng.Returns(fn)
+	for _, r := range rets {
+		if len(r.Results) != 1 {
+			return false
+		}
+		cl, ok := r.Results[0].(*ssa.Call)
+		if !ok {
+			return false
+		}
+		nc := nfCallOf(cl)
+		if nc.Name != c11HMACFn || len(nc.Args) != 2 || nc.Args[1] != ssa.Value(fn.Params[0]) {
+			return false
+		}
+	}
+	return len(rets) > 0
+}
+
+// c11IsHMACResult: v is the result of calling the salted-HMAC function.
+func c11IsHMACResult(v ssa.Value) bool {
+	cl, ok := v.(*ssa.Call)
+	if !ok {
+		return false
+	}
+	return nfCallOf(cl).Name == c11HMACFn || c11IsHMACFunc(cl.Call.Value)
+}
+
+// c11SanOrigin: every origin of v matches pat, or (hmacToo) is a result of the salted-HMAC function.
+func c11SanOrigin(v ssa.Value, pat string, hmacToo bool) bool {
+	os := eng.Origins(v)
+	if len(os) == 0 {
+		return false
+	}
+	for _, o := range os {
+		if ok, _ := regexpMatch(pat, o.Kind+":"+o.Desc); ok {
+			continue
+		}
+		if hmacToo && c11IsHMACResult(o.Val) {
+			continue
+		}
+		return false
+	}
+	return true
 }
